@@ -304,3 +304,23 @@ SPECS["C08"] = ("""property C08: event verification accepts exactly correctly ha
    "forall e tj cj, tags_as_json (e_tags e) = Ok tj -> json_escape (e_content e) = Ok cj ->\n    canon e = Ok ([91; 48; 44; 34] ++ write_hex (e_pk e) ++ [34; 44] ++ dec (e_created e) ++ [44] ++ dec (e_kind e)\n                  ++ [44] ++ tj ++ [44; 34] ++ cj ++ [34; 93])",
    "canon_shape", "the NIP-01 array, no whitespace"),
   ], "")
+
+SPECS["C13"] = ("""property C13: killing the process at any instant leaves a consistent, reopenable store.
+   Persistent-step model (Crash.v): what survives a kill is every byte already written, set_len,
+   and every COMMITTED transaction.  Proved: every state a kill inside store_event can leave has the
+   committed tables of before or of after the call (never a mixture), a log that only grew, and a
+   well-formed log (every index entry points below the end marker at a whole event); removal is
+   before-or-after; every state on the way through a vanish is reached by whole removals over the same
+   log; every interruption of store creation recovers to the empty store with the marker after the
+   header.  Subsequent operations behave as on a never-interrupted store because every other theorem
+   assumes only these invariants.  PARTIAL for what a Gallina model cannot exhibit: LMDB's own commit
+   atomicity and lock recovery, the page cache keeping dirty shared pages of a killed process.""",
+  "From Pocket Require Import Db DbProofs Crash CrashProofs.", [
+  ("C13_store_crash_atomic",
+   "forall s e r, log_inv s -> In r (crash_states_store s e) ->\n    (committed r = committed s \\/ committed r = committed (fst (store_event s e))) /\\\n    log_extends s r /\\ log_inv r /\\ log_end r <= log_end (fst (store_event s e))",
+   "crash_store_atomic", "every kill point of the write path: before/after padding, mid-copy, before/after the marker update, growth, before/after commit"),
+  ("C13_remove_crash_atomic", "forall s id r, In r (crash_states_remove s id) -> r = s \\/ r = fst (remove_event s id)", "crash_remove_atomic", ""),
+  ("C13_vanish_crash_prefix", "forall ids s r, In r (remove_events_trace s ids) -> log r = log s /\\ log_end r = log_end s", "remove_events_trace_log", "a subset of the targets may be gone, nothing else"),
+  ("C13_create_crash_recovers", "forall names c, recover_create names c = db_init names", "crash_create_recovers", "incl. the file sized but its marker never written"),
+  ("C13_log_inv_reachable", "forall ops s, log_extends s (c_run ops s) /\\ (log_inv s -> log_inv (c_run ops s))", "c_run_log", "the invariant the recovered store satisfies is preserved by all later operations"),
+  ], "")
